@@ -42,6 +42,9 @@ pub struct ElfSpec {
     /// post-link tool (patchelf and the like) appended: at the end of the file, but at a virtual
     /// address far from its file offset
     pub moved_tables: bool,
+    /// the image is a shared object (ET_DYN) even though it is linked at a non-zero base
+    /// (prelink, -Ttext-segment, --image-base)
+    pub force_dyn: bool,
 }
 
 #[derive(Clone, Debug)]
@@ -270,7 +273,7 @@ pub fn build(spec: &ElfSpec) -> ElfImage {
     f[4] = 2; // 64-bit
     f[5] = 1; // LE
     f[6] = 1;
-    put16(&mut f, 16, if spec.link_base != 0 { 2 } else { 3 }); // ET_EXEC / ET_DYN
+    put16(&mut f, 16, if spec.link_base != 0 && !spec.force_dyn { 2 } else { 3 }); // ET_EXEC / ET_DYN
     put16(&mut f, 18, 62); // x86_64
     put32(&mut f, 20, 1);
     let entry_off = text_off + 0x10;
